@@ -59,8 +59,8 @@ COMPONENTS_STUB = ["socket (SimSocket)", "selector (SimSelector subclass with ea
 ASSUMPTIONS = [
     "processing takes no virtual time: the clock only moves inside select()/sleep",
     "completion moment of a send assumes a greedy sender (writes whenever the socket is writable); the library is one",
-    "asyncio engine, buffer-filling receive path: only positive off-grid timeouts and None are generated (an expired or "
-    "coinciding deadline there triggers known defect D5 of C10, which loses bytes and would falsify the arrival model)",
+    "asyncio engine: the arrival model assumes a timed-out receive loses no bytes (C10; D5 fixed in /repo e60fd44), so ties "
+    "and zero budgets are generated on the buffer-filling path too",
     "lock contention by a second thread and SSLStreamTransport are not covered by this module yet",
 ]
 BUDGET = {"quick": 40, "thorough": 480}
@@ -483,7 +483,7 @@ def _h_aio_iter(world: World, kind: str) -> None:
     calm = world.choose("swarm", 3) == 0
     d = world.pick("delta", (4, 1, 2, 8)) / 64.0
     path = world.pick("path", ["copy", "buffered"]) if kind == "tcp" else "dgram"
-    exact = path != "buffered"  # ties and zero budgets only where D5 cannot falsify the arrival model
+    exact = True  # ties and zero budgets on every path (D5, which lost bytes on the fill path there, is fixed: /repo e60fd44)
     ctx = Ctx(world, f"aio-iter-{kind}/{path}")
     net = SimNet(world)
     backend = SimAsyncIOBackend(net)
